@@ -248,7 +248,7 @@ func C04(p *core.Program, r *core.Report) {
 	var innerFinder *ssa.Function
 	if itf := mustFunc(p, r, "V5", domutilPkg+".InnerText"); itf != nil {
 		for _, f := range recursiveWorkers(p, itf) {
-			if len(core.Calls(p.Inlined(f), func(ci ssa.CallInstruction) bool { return core.IsCallTo(ci, "(*bytes.Buffer).WriteString") })) > 0 {
+			if len(core.Calls(p.Inlined(f), func(ci ssa.CallInstruction) bool { return core.IsCallTo(ci, "(*bytes.Buffer).WriteString", "(*strings.Builder).WriteString") })) > 0 {
 				innerFinder = f
 			}
 		}
@@ -267,7 +267,7 @@ func C04(p *core.Program, r *core.Report) {
 			Event: func(in ssa.Instruction, c *core.Canon) (string, bool) {
 				if call, ok := in.(*ssa.Call); ok {
 					s := c.Of(call)
-					if strings.HasPrefix(s, "bytes.Buffer.WriteString(") {
+					if strings.HasPrefix(s, "bytes.Buffer.WriteString(") || strings.HasPrefix(s, "strings.Builder.WriteString(") {
 						return "write " + c.Of(call.Call.Args[1]), true
 					}
 					if isSelfCall(p, innerFinder, call) {
